@@ -137,6 +137,10 @@ func (s *Spec) Build() px.Type {
 	case "Callable":
 		return types.DefaultCallableType()
 	}
+	if t := buildExt(s); t != nil {
+		// recipe kinds added by ext.go (user aliases)
+		return t
+	}
 	panic("lat.Spec.Build: unknown kind " + s.K)
 }
 
